@@ -98,6 +98,21 @@ def r2(ctx):
         ctx.check("MockExchange::open_order:%s:%s" % (side, which), ok,
                   "the debit is control-dependent on `free - required >= 0` and stores exactly that difference",
                   sites=[s["sp"]], got={"value": render(value)[-160:], "guard": render_guard(g)[-300:]}, key="check-then-debit")
+        # iff: nothing else decides acceptance
+        extra = []
+        for conj in g:
+            for a in conj:
+                r = mir.render_atom(a)
+                if a[0] == "is" and render(a[1]) in ("request.state.side",):
+                    continue
+                if a[0] == "is" and a[1][0] == "call" and mir.short(a[1][1]) in ("MockExchange::validate_order_kind_supported", "MockExchange::find_instrument_data") and a[2] == frozenset(["Ok"]):
+                    continue
+                if suff("cmp", (atoms.atom_cmp(a) or (None, None, None)) + (None,)) if atoms.atom_cmp(a) else False:
+                    continue
+                extra.append(r[:140])
+        ctx.check("MockExchange::open_order:%s:%s" % (side, which), not extra,
+                  "an order is accepted if and only if it is a supported kind on a known instrument and the balance suffices "
+                  "(no further condition)", sites=[s["sp"]], got=sorted(set(extra)), key="iff")
         # value = free - required of the same balance
         okv = value[0] == "call" and value[1] == "std::ops::Sub::sub" and \
             value[2][0] == mir.mk_proj(path[1] if path[0] == "proj" else path, path[2][:-1] + ("free",)) if path[0] == "proj" else False
